@@ -65,6 +65,8 @@ func (s *checkpoint) Save() {
 		return
 	}
 
+	verifHook("save.marks")
+
 	// Take the dirty marks before dumping the offsets: a mark made from here on
 	// lands in the fresh set and is picked up by the next save instead of being
 	// wiped after this one.
